@@ -471,20 +471,17 @@ def merge_projections(arr):
         return arr
     if len(arr) == 1 or not has_none(arr[0]):
         return arr[0]
-    sparse_fa = np.copy(arr[0])
-    i = 0
-    k = 1
-    while i < len(sparse_fa) and k < len(arr):
-        fa = arr[k]
+    # Each later layer supplies, in order, one value per hole that is still open;
+    # an omitted value (None) leaves that hole open for the next layer.
+    sparse_fa = list(arr[0])
+    for fa in arr[1:]:
         j = 0
-        while i < len(sparse_fa) and j < len(fa):
+        for i in range(len(sparse_fa)):
+            if j >= len(fa):
+                break
             if sparse_fa[i] is None:
                 sparse_fa[i] = fa[j]
                 j += 1
-                while j < len(fa) and safe_eq(fa[j], None):
-                    j += 1
-            i += 1
-        k += 1
     return sparse_fa
 
 
